@@ -182,7 +182,7 @@ ASSUMPTIONS = [
     "order of simultaneous stop checks is unconstrained (holds-set membership)",
     "sampling, not proof",
 ]
-BUDGETS = {"quick": (24000, 40), "thorough": (1500000, 280)}
+BUDGETS = {"quick": (72000, 90), "thorough": (3500000, 285)}
 
 
 def gen(seed, tier="quick"):
